@@ -471,7 +471,7 @@ func joinExcluded(e gen.Expr, sides map[string]int) bool {
 func c01Main(r *run.Runner) {
 	r.Rule = "every expression tree over 36 node kinds (15 binary operators, in/1, in/2, both signs, index, every built-in with its arities, unknown f/1 f/2) with at most N internal nodes, leaves = fresh typed columns, " +
 		"printed with minimal, full and redundant parentheses and placed at each expression position (where, project, extend named/unnamed, summarize aggregate+key, sort, top, take, let, join on) is compiled; the output is parsed with ClickHouse operator priorities by the independent reader, " +
-		"the expression at the position is extracted and evaluated over ALL valuations of its columns over the stated domains, and compared with the PQL tree evaluated with PQL grouping; non-trivial = compiled and reached the row sweep; distinct by construction (tree x parenthesisation x position)"
+		"the expression at the position is extracted and evaluated over ALL valuations of its columns over the stated domains, and compared with the PQL tree evaluated with PQL grouping; plus wide families (one tree per construct - chains of every operator, in-lists, call arguments, iff/not/sign/index nests, one-hot variants in which only operand j decides the result - with k operands for every k in 1..65, thorough ..257) at every open position; plus a termination sweep over pairs of nesting wrappers at depths 12 and 40; non-trivial = compiled and reached the row sweep; distinct by construction (tree x parenthesisation x position)"
 	r.Assume = []string{"primitive semantics of DESIGN.md appendix A are shared by both evaluators", "SQL is read with ClickHouse operator priorities",
 		"rows on which the PQL expression is unspecified (=~ on NULL) are skipped and counted; on rows where it is ill-typed the SQL expression must fail too"}
 	N, NPos := 3, 2
